@@ -27,16 +27,27 @@ class RemoveDebug(SuiteTransformer):
         if not isinstance(node, ast.If):
             return False
 
+        if node.orelse:
+            # The else branch is what runs when __debug__ is False, it can't be removed with the test
+            return False
+
         if isinstance(node.test, ast.Name) and node.test.id == '__debug__':
             return True
 
-        if isinstance(node.test, ast.Compare) and len(node.test.ops) == 1 and isinstance(node.test.ops[0], ast.Is) and self.constant_value(node.test.comparators[0]) is True:
+        if not isinstance(node.test, ast.Compare) or len(node.test.ops) != 1:
+            return False
+
+        if not (isinstance(node.test.left, ast.Name) and node.test.left.id == '__debug__'):
+            # Only tests of __debug__ itself are removed
+            return False
+
+        if isinstance(node.test.ops[0], ast.Is) and self.constant_value(node.test.comparators[0]) is True:
             return True
 
-        if isinstance(node.test, ast.Compare) and len(node.test.ops) == 1 and isinstance(node.test.ops[0], ast.IsNot) and self.constant_value(node.test.comparators[0]) is False:
+        if isinstance(node.test.ops[0], ast.IsNot) and self.constant_value(node.test.comparators[0]) is False:
             return True
 
-        if isinstance(node.test, ast.Compare) and len(node.test.ops) == 1 and isinstance(node.test.ops[0], ast.Eq) and self.constant_value(node.test.comparators[0]) is True:
+        if isinstance(node.test.ops[0], ast.Eq) and self.constant_value(node.test.comparators[0]) is True:
             return True
 
         return False
